@@ -701,6 +701,14 @@ fn circular_arc_properties(a: Pos, b: Pos, c: Pos) -> Option<CircularArcProperti
 
     // * See: https://en.wikipedia.org/wiki/Circumscribed_circle#Cartesian_coordinates_2
     let d = 2.0 * (a.x * (b - c).y + b.x * (c - a).y + c.x * (a - b).y);
+
+    // The denominator is computed from absolute coordinates and can cancel to
+    // zero even though the triangle is not degenerate; dividing by it would
+    // make the whole path NaN.
+    if d == 0.0 {
+        return None;
+    }
+
     let a_sq = a.length_squared();
     let b_sq = b.length_squared();
     let c_sq = c.length_squared();
